@@ -237,28 +237,14 @@ func compile(patterns []string, mode Mode) (*regexp.Regexp, error) {
 						}
 						b.WriteString(pat[:w])
 					case '[':
-						b.WriteByte('[')
-						pat = pat[w:]
-						r, w = utf8.DecodeRuneInString(pat)
-						switch r {
-						case utf8.RuneError:
-							if w == 0 {
-								break Pattern
+						if len(pat) > 1 && (pat[1] == '.' || pat[1] == '=' || pat[1] == ':') {
+							if j := strings.Index(pat[2:], pat[1:2]+"]"); j != -1 {
+								w = j + 4
+								b.WriteString(pat[:w])
+								break
 							}
-							b.WriteString(pat[:w])
-						case '.', '=', ':':
-							b.WriteRune(r)
-							pat = pat[w:]
-							j := strings.Index(pat, string(r)+"]")
-							if j == -1 {
-								break Bracket
-							}
-							w = j + 2
-							b.WriteString(pat[:w])
-						default:
-							b.WriteRune(r)
-							break Bracket
 						}
+						b.WriteString(`\[`)
 					case ']':
 						b.WriteByte(']')
 						break Bracket
